@@ -34,7 +34,7 @@ ASSUMPTIONS = ['selections are fresh InequalitySubsetState objects per compariso
                'numeric and string keys are never joined with each other', 'sampling, not proof']
 PROBES = ['shape_1_1', 'shape_n_n', 'shape_1_n', 'shape_n_1', 'chain_len_ge_2', 'cyclic_graph', 'incompatible_on_cycle', 'several_partners_answer',
           'joinlink_added', 'joinlink_removed', 'key_updated', 'partner_removed_from_collection', 'mixed_numeric_dtype', 'mixed_string_width',
-          'empty_selection', 'view_compare', 'big_tables', 'join_replaced', 'join_by_label']
+          'empty_selection', 'view_compare', 'big_tables', 'join_replaced', 'join_by_label', 'keys_beyond_2_53']
 
 WEIGHTS = {'join': 7, 'joinlink': 2, 'remove_joinlink': 1, 'upd': 2, 'remove': 0.5, 'compare': 7, 'failing_eval': 1.5}
 KEYKINDS = ['int', 'float', 'sshort', 'slong']
@@ -45,6 +45,9 @@ def keycol(kind, vs, n, nkeys=5):
     base = rs.randint(0, nkeys, size=n)
     if kind == 'int':
         return base.astype(np.int64)
+    if kind == 'bigint':
+        # 64-bit identifiers beyond the range in which doubles are exact
+        return base.astype(np.int64) + 2 ** 53
     if kind == 'float':
         return base.astype(float)
     letters = [chr(97 + i) for i in range(max(5, nkeys))]
@@ -59,9 +62,12 @@ def generate(rng, cfg, guards):
     nt = rng.randrange(2, 5)
     family = rng.pick(['num', 'num', 'str'])
     big = rng.chance(0.2)
+    # (small tables only: on numpy's sort-based path np.isin itself mixes up int64 keys beyond 2**53 once a float column is involved)
+    bigids = family == 'num' and not big and rng.chance(0.25)
     ops = []
     for i in range(nt):
-        kinds = [rng.pick(['int', 'float'] if family == 'num' else ['sshort', 'slong']) for _ in range(rng.randrange(2, 4))]
+        kinds = [rng.pick((['int', 'float'] if not bigids else ['bigint', 'bigint', 'float']) if family == 'num' else ['sshort', 'slong'])
+                 for _ in range(rng.randrange(2, 4))]
         if 'C11-nn-mixed-storage' in guards:
             kinds = [kinds[0]] * len(kinds)
         # size knob: numpy switches membership algorithms with the sizes of the two key arrays (np.isin), so some runs use
@@ -108,7 +114,8 @@ def keys_equal(a, b):
 def norm(x):
     if isinstance(x, (str, np.str_, bytes)):
         return ('s', str(x))
-    return ('n', float(x))
+    # exact value: Python compares (and hashes) ints and floats by value, 2**53 + 1 stays different from 2**53
+    return ('n', x.item() if hasattr(x, 'item') else x)
 
 
 def execute(case, res):
@@ -309,7 +316,9 @@ def compare(tables, joins, kinds, op, res):
             res.probe('several_partners_answer')
         kpair = sorted(set(kinds[i]) | set(kinds[src]))
         if len(set(kinds[i]) | set(kinds[src])) > 1:
-            res.probe('mixed_numeric_dtype' if kpair[0] in ('int', 'float') else 'mixed_string_width')
+            res.probe('mixed_numeric_dtype' if kpair[0] in ('int', 'float', 'bigint') else 'mixed_string_width')
+            if 'bigint' in kpair:
+                res.probe('keys_beyond_2_53')
         res.fp(shapes, [len(tables), npairs, cyclic], kpair, min(pathlen(joins, i, src), 4), view is not None)
         if pathlen(joins, i, src) >= 2:
             res.probe('chain_len_ge_2')
